@@ -8,7 +8,10 @@ Decided:
               chromatic scaling subtracts ONE centre (the neutral point's chromaticity) from both the gamut vertices and the
               targets, scales, and adds that same centre back; hull and targets enter the boundary-multiple computation in the
               same centred frame
-  R-SIGN      the boundary multiple handed to nanmin is positive-or-NaN (mask idiom) — hue direction is kept
+              the common factor of the intensity scaling is a ratio of two captures in the SAME frame (LIGHT/LIGHT)
+  R-SIGN      the boundary multiple handed to nanmin is positive-or-NaN (mask idiom) — hue direction is kept; a raw quotient
+              by the centred coordinates (±inf at the neutral point, where every all-zero row is placed) is a violation
+  R-ZERO      all-zero target rows never reach the chromatic reduction
   R-FLOW      the totals used to re-expand the scaled chromaticities are those of the (copied) targets
   R-PURITY    the caller's targets are copied before the zero-row patch; queries write no estimator field
   R-DIM1      for two receptors no 1-wide chromatic data reaches qhull (the interval branch is reachable)
